@@ -47,9 +47,9 @@ func infixAdmissible(op pAst.InfixOperator, l ast.Type, r ast.Type) bool {
 	}
 	switch l.Kind() {
 	case ast.IntTypeKind:
-		return pAst.VIsIntArith(op) || op == pAst.PowerInfixOperator || pAst.VIsCompare(op)
+		return pAst.VIsIntArith(op) || pAst.VIsCompare(op)
 	case ast.FloatTypeKind:
-		return pAst.VIsFloatArith(op) || op == pAst.PowerInfixOperator || pAst.VIsCompare(op)
+		return pAst.VIsFloatArith(op) || pAst.VIsCompare(op)
 	case ast.BoolTypeKind:
 		return op == pAst.BitOrInfixOperator || op == pAst.BitAndInfixOperator || op == pAst.BitXorInfixOperator || op == pAst.LogicalOrInfixOperator || op == pAst.LogicalAndInfixOperator
 	case ast.StringTypeKind:
@@ -113,8 +113,8 @@ func sameFloat(a float64, b float64) bool { return a == b || (a != a && b != b) 
     requires lhs != nil && rhs != nil && infixAdmissible(operator, lhs.Type(), rhs.Type())
     ensures @result i == nil ==> res != nil && *res != nil
     ensures @depth-balanced self.callStackSize == old(self.callStackSize) && self.callStackLimitSize == old(self.callStackLimitSize)
-    assert @int-semantics before return value.NewValueInt(intRes), lhsVal, nil :: operator != pAst.PowerInfixOperator ==> !pAst.VIntOpRaises(operator, rhsInt.Inner) && intRes == pAst.VIntOp(operator, lhsInt.Inner, rhsInt.Inner)
-    assert @float-semantics before return value.NewValueFloat(floatRes), lhsVal, nil :: operator != pAst.PowerInfixOperator ==> !pAst.VFloatOpRaises(operator, rhsFloat.Inner) && sameFloat(floatRes, pAst.VFloatOp(operator, lhsFloat.Inner, rhsFloat.Inner))
+    assert @int-semantics before return value.NewValueInt(intRes), lhsVal, nil :: !pAst.VIntOpRaises(operator, rhsInt.Inner) && intRes == pAst.VIntOp(operator, lhsInt.Inner, rhsInt.Inner)
+    assert @float-semantics before return value.NewValueFloat(floatRes), lhsVal, nil :: !pAst.VFloatOpRaises(operator, rhsFloat.Inner) && sameFloat(floatRes, pAst.VFloatOp(operator, lhsFloat.Inner, rhsFloat.Inner))
     assert @bool-semantics before return value.NewValueBool(boolRes), lhsVal, nil :: boolRes == pAst.VBoolOp(operator, lhsBool, rhsBool)
     assert @int-lt before return value.NewValueBool(lhsInt.Inner < rhsInt.Inner) :: pAst.VCmpInt(operator, lhsInt.Inner, rhsInt.Inner) == (lhsInt.Inner < rhsInt.Inner)
     assert @int-le before return value.NewValueBool(lhsInt.Inner <= rhsInt.Inner) :: pAst.VCmpInt(operator, lhsInt.Inner, rhsInt.Inner) == (lhsInt.Inner <= rhsInt.Inner)
